@@ -1,7 +1,7 @@
 (* C15 — weighting algos produce the documented weights.  Statements only; proofs in Proofs/AlgoProofs.v. *)
 From Coq Require Import Reals List Bool.
 Import ListNotations.
-Require Import BT.Num BT.Base BT.Records BT.Engine BT.Ops BT.Algos BT.Proofs.AlgoProofs.
+Require Import BT.Num BT.Base BT.Records BT.Engine BT.Ops BT.Algos BT.Proofs.AlgoProofs BT.Proofs.LimitProofs.
 Local Open Scope R_scope.
 
 (* WeighEqually: one entry per selected ticker (in order), all equal, summing to one *)
@@ -29,3 +29,20 @@ Print Assumptions C15_limit_deltas_bound.
 Theorem C15_limit_deltas_unchanged_inside : forall lim tgt cur, Rabs (tgt - cur) <= lim -> limited lim tgt cur = tgt.
 Proof. exact limit_delta_unchanged. Qed.
 Print Assumptions C15_limit_deltas_unchanged_inside.
+
+(* LimitWeights: infeasible cap (1 / limit > number of weights) -> no weights at all; otherwise the result respects the cap,
+   keeps the tickers, and preserves the total whenever each redistribution round has weights below the cap to take
+   what it cuts (lw_good: "excess = 0 or the weights below the cap do not sum to zero" in every round) *)
+Theorem C15_limit_weights_infeasible_gives_nothing : forall ps e p lim (tr : tree RNumI (astate RNumI)) g kids st x tw,
+  get_astate p tr = Ok (g, kids, st) -> t_weights (a_temp st) = Some (x :: tw) ->
+  (lim < 1 / INR (length (x :: tw)))%R ->
+  run_algo ps e p (ALimitWeights RNumI lim) tr =
+  bind (set_temp p (with_weights [] (a_temp st)) tr) (fun tr' => Ok (ALimitWeights RNumI lim, true, tr')).
+Proof. exact limit_weights_infeasible. Qed.
+Print Assumptions C15_limit_weights_infeasible_gives_nothing.
+
+Theorem C15_limit_weights_cap_keys_total : forall fuel lim (w r : list (nat * R)),
+  limit_weights RNumI fuel lim w = Ok r ->
+  Forall (fun kv => (snd kv <= lim)%R) r /\ map fst r = map fst w /\ (lw_good fuel lim w -> sumR r = sumR w).
+Proof. exact limit_weights_spec. Qed.
+Print Assumptions C15_limit_weights_cap_keys_total.
